@@ -23,6 +23,11 @@ type readStep struct {
 
 var errSentinel = errors.New("verif: injected read error")
 
+// errSentinelEOF is a read error that wraps io.EOF (as an *fs.PathError from
+// a network file system may): an error all the same, by the io.Reader
+// contract only io.EOF itself means end of input.
+var errSentinelEOF = fmt.Errorf("verif: injected read error: %w", io.EOF)
+
 // scriptFile is a FileInput whose reads follow a script; after the script
 // is used up it delivers everything that is left in buffer-sized reads.
 type scriptFile struct {
@@ -38,16 +43,25 @@ type scriptFile struct {
 	readAfterEnd   bool // a Read after a Read returned (0, EOF) or an error
 	ended          bool
 	sentErr        bool        // the sentinel was actually returned by a Read
+	sentWrapped    bool        // ... and it was the one that wraps io.EOF
 	delivered      int         // bytes delivered so far
 	readEnds       []int       // cumulative bytes delivered after each data-carrying read
 	onRead         func(k int) // optional hook, called at the start of Read number k (0-based) without the lock
 	onClose        func()
 	eofData        bool // every read that delivers the last data returns io.EOF with it
+	// racy: Read and Close touch a field without synchronisation, as a plain
+	// FileInput may; whoever calls them must order them (only the -race build
+	// of C12 sets it)
+	racy  bool
+	touch int
 }
 
 func (f *scriptFile) Name() string { return f.name }
 
 func (f *scriptFile) Close() error {
+	if f.racy {
+		f.touch++
+	}
 	f.mu.Lock()
 	f.closes++
 	h := f.onClose
@@ -59,6 +73,9 @@ func (f *scriptFile) Close() error {
 }
 
 func (f *scriptFile) Read(p []byte) (int, error) {
+	if f.racy {
+		f.touch++
+	}
 	f.mu.Lock()
 	k := f.reads
 	f.reads++
@@ -86,6 +103,12 @@ func (f *scriptFile) Read(p []byte) (int, error) {
 		f.ended = true
 		f.sentErr = true
 		return 0, errSentinel
+	}
+	if st.Err == "fail-wraps-eof" {
+		f.ended = true
+		f.sentErr = true
+		f.sentWrapped = true
+		return 0, errSentinelEOF
 	}
 	if st.Err == "eofnow" {
 		// the input ends here, whatever was left
@@ -124,7 +147,7 @@ func boundaries(script []readStep, n int) []int {
 	var out []int
 	off := 0
 	for _, st := range script {
-		if st.Err == "fail" {
+		if st.Err == "fail" || st.Err == "fail-wraps-eof" {
 			break
 		}
 		k := st.N
@@ -210,7 +233,7 @@ func (l *lockedBuf) String() string {
 
 // ---------- inputs with faults ----------
 
-var lexFaults = []string{"@", "$", "!", "! x", "1a", "0x1G", "1.", "1e", "1e+", "1.5x", "2e3q", "1.5\"s\"", "0.5e1\"", "\"abc", "\"a\\", "\"a\\\n", "\"a\"b", "é", "éx", "ab\"c\"", "?", "`", "\x00", "\xff", "[", "]", ",", ".", "~", "%", "&", "|", "^", "\xef\xbb\xbf", "\xa0", "\x85", "\xc2"}
+var lexFaults = []string{"@", "$", "!", "! x", "1a", "0x1G", "1.", "1e", "1e+", "1.5x", "2e3q", "1.5\"s\"", "0.5e1\"", "\"abc", "\"a\\", "\"a\\\n", "\"a\"b", "é", "éx", "\u20ac", "\U0001F600", "x\u20ac", "ab\"c\"", "?", "`", "\x00", "\xff", "[", "]", ",", ".", "~", "%", "&", "|", "^", "\xef\xbb\xbf", "\xa0", "\x85", "\xc2"}
 
 // injectLexFault inserts a lexically invalid fragment at a token gap of a
 // rendered source. It returns the new source and the gap used.
